@@ -361,6 +361,9 @@ def check_name(name):
                         res["execs"] += 1
                     obs = exec_cache[new]
                     sig = signature(obs, name, kind)
+                    if sig is None and style and "example" not in res:
+                        res["example"] = {"part": "roundtrip", "name": name, "kind": kind, "typed_line": line, "cursor": cursor,
+                                          "completion": text, "prefix_len": plen, "spliced_line": new, "argv_calls": obs, "verdict": "ok"}
                     if sig is not None:
                         res["failing"] += 1
                         fk = (kind, style, closed, sig_class(sig))
@@ -677,9 +680,11 @@ def run(ctx):
     ctx.log(f"part 2: {dict(t2)}; bad (clause, where, class) counts: { {':'.join(str(x) for x in k): n for k, n in bad_counts.items()} }")
 
     # ---- evidence
-    for n in common.pick_samples([r for r in res if r["completions"]], ctx.seed, 4):
-        ctx.sample({"part": "roundtrip", "name": n["name"], "admitted_cases": n["admitted"], "completions_executed": n["completions"], "failing": n["failing"]})
-    ctx.sample({"part": "analyser", "text": "a 'b", "cursor": 4, "result": "command context, prefix 'b', opening quote \"'\""})
+    for n in common.pick_samples([r for r in res if "example" in r], ctx.seed, 5):
+        ctx.sample(n["example"])
+    for text, cursor in (("a 'b", 4), ("a $(b c", 7), ("a @(b", 5)):
+        c2 = _P2.parse(text, cursor)
+        ctx.sample({"part": "analyser", "text": text, "cursor": cursor, "context": repr(c2)[:300], "verdict": "ok" if analyse(text, cursor) is None else "violates"})
     ctx.coverage.update(
         evaluations=tot["completions"] + t2["parses"],
         distinct_nontrivial=tot["execs"] + t2["strings"],
